@@ -454,3 +454,69 @@ func ZZH_C17_rejected_applicant() {
 		zz.Assert("C17.applicant.rejected-applicant-has-no-authority", lerr != nil && w.effects == before && w.unchanged(snap))
 	}
 }
+
+// ZZH_C17_replaced_chain_admin: a chain is registered by its admin (real RegisterAppchain, approved
+// through the real Manage); then the chain's admin list is replaced by an approved UpdateAppchain
+// (real entry point and Manage). From then on the operations reserved to the chain's own admin -
+// LogoutAppchain, UpdateAppchain, FreezeAppchain is for governance admins - are refused to the
+// former admin without effect and accepted from the new one.
+func ZZH_C17_replaced_chain_admin() {
+	w, cs := zzFullWorld()
+	w.audit = zz.Choice("audit", 2) == 1
+	zzPutGovAdmins(w, 4)
+	newAdmin := "0xC100000000000000000000000000000000000004"
+	ret, err := zzTx(w, cs[zzAppchainAddr], zzAppchainAddr, zzMallory, "RegisterAppchain", []*pb.Arg{
+		pb.String("chX"), pb.String("nameX"), pb.Bytes(nil), pb.String("ETH"), pb.Bytes([]byte("root")), pb.String("0xBroker"), pb.String("desc"),
+		pb.String(validator.HappyRuleAddr), pb.String("url"), pb.String(zzMallory), pb.String("reason")})
+	zz.Assert("C17.replaced.submitted", err == nil)
+	var gr governance.GovernanceResult
+	_ = json.Unmarshal(ret, &gr)
+	p, ok := zzProposalOf(w, gr.ProposalID)
+	zz.Assert("C17.replaced.proposal", ok)
+	if !ok {
+		return
+	}
+	_, err = zzTx(w, cs[zzAppchainAddr], zzAppchainAddr, zzGovAddr, "Manage",
+		[]*pb.Arg{pb.String(string(governance.EventRegister)), pb.String(string(APPROVED)), pb.String(""), pb.String("chX"), pb.Bytes(p.Extra)})
+	zz.Assert("C17.replaced.registered", err == nil)
+	// the admin hands the chain over: first the new admin is added (the list has to contain the
+	// caller), then the new admin drops the old one; both updates approved
+	update := func(caller, admins, label string) bool {
+		ret, err := zzTx(w, cs[zzAppchainAddr], zzAppchainAddr, caller, "UpdateAppchain", []*pb.Arg{
+			pb.String("chX"), pb.String("nameX"), pb.String("desc"), pb.Bytes([]byte("root")), pb.String(admins), pb.String("handing over")})
+		zz.Assert("C17.replaced.update-submitted:"+label, err == nil)
+		if err != nil {
+			return false
+		}
+		var g governance.GovernanceResult
+		_ = json.Unmarshal(ret, &g)
+		p2, ok2 := zzProposalOf(w, g.ProposalID)
+		zz.Assert("C17.replaced.update-proposal:"+label, ok2)
+		if !ok2 {
+			return false
+		}
+		_, err = zzTx(w, cs[zzAppchainAddr], zzAppchainAddr, zzGovAddr, "Manage",
+			[]*pb.Arg{pb.String(string(governance.EventUpdate)), pb.String(string(APPROVED)), pb.String(string(governance.GovernanceAvailable)), pb.String("chX"), pb.Bytes(p2.Extra)})
+		zz.Assert("C17.replaced.update-approved:"+label, err == nil)
+		return err == nil
+	}
+	if !update(zzMallory, zzMallory+","+newAdmin, "add") || !update(newAdmin, newAdmin, "drop") {
+		return
+	}
+	who := []string{zzMallory, newAdmin}[zz.Choice("caller", 2)]
+	snap := w.snapshot()
+	before := w.effects
+	var oerr error
+	switch zz.Choice("operation", 2) {
+	case 0:
+		_, oerr = zzTx(w, cs[zzAppchainAddr], zzAppchainAddr, who, "LogoutAppchain", []*pb.Arg{pb.String("chX"), pb.String("r")})
+	case 1:
+		_, oerr = zzTx(w, cs[zzAppchainAddr], zzAppchainAddr, who, "UpdateAppchain", []*pb.Arg{
+			pb.String("chX"), pb.String("renamed"), pb.String("desc"), pb.Bytes([]byte("root")), pb.String(newAdmin), pb.String("r")})
+	}
+	if who == zzMallory {
+		zz.Assert("C17.replaced.former-admin-refused-without-effect", oerr != nil && w.effects == before && w.unchanged(snap))
+	} else {
+		zz.Cover("C17.replaced.new-admin-accepted", oerr == nil)
+	}
+}
